@@ -17,9 +17,17 @@ import (
 // needsCase is a workflow reduced to its needs graph. Needs entries are written as given (any letter
 // case, possibly naming a job that does not exist, possibly repeated).
 type needsCase struct {
-	Jobs   []string   `json:"jobs"`   // job ids as written (unique modulo case)
-	Needs  [][]string `json:"needs"`  // per job: needs entries as written
-	Scalar []bool     `json:"scalar"` // per job: write a single entry in scalar form
+	Jobs   []string   `json:"jobs"`             // job ids as written (unique modulo case)
+	Needs  [][]string `json:"needs"`            // per job: needs entries as written
+	Scalar []bool     `json:"scalar"`           // per job: write a single entry in scalar form
+	Broken []int      `json:"broken,omitempty"` // per job: 0 well-formed; 1 empty body (null); 2 scalar body; 3 sequence body. The id is defined all the same.
+}
+
+func (c *needsCase) broken(i int) int {
+	if i < len(c.Broken) {
+		return c.Broken[i]
+	}
+	return 0
 }
 
 var (
@@ -35,6 +43,11 @@ func (c *needsCase) yaml() (string, []int) {
 	starts := make([]int, len(c.Jobs))
 	for i, id := range c.Jobs {
 		starts[i] = line
+		if k := c.broken(i); k != 0 {
+			fmt.Fprintf(&b, "  %s:%s\n", id, []string{"", "", " 42", " []"}[k])
+			line++
+			continue
+		}
 		fmt.Fprintf(&b, "  %s:\n    runs-on: ubuntu-latest\n", id)
 		line += 2
 		ns := c.Needs[i]
@@ -64,6 +77,9 @@ func checkNeeds(c *needsCase, repeats int) (string, string) {
 	wantDangling := map[string]bool{} // "job\x00dep"
 	for i := range c.Jobs {
 		seen := map[string]bool{}
+		if c.broken(i) != 0 {
+			continue // no body, no needs
+		}
 		for _, e := range c.Needs[i] {
 			le := strings.ToLower(e)
 			if seen[le] {
@@ -99,6 +115,9 @@ func checkNeeds(c *needsCase, repeats int) (string, string) {
 		ncyc := 0
 		for _, d := range ds {
 			if d.Kind != "job-needs" {
+				if j := jobOfLine(d.Line); j >= 0 && c.broken(j) != 0 && d.Kind == "syntax-check" {
+					continue // the broken body itself is reported
+				}
 				return "C18/unexpected-diagnostic", fmt.Sprintf("unexpected diagnostic %s\n%s", d, src)
 			}
 			if m := reDangling.FindStringSubmatch(d.Msg); m != nil {
@@ -481,6 +500,13 @@ func TestC18(t *testing.T) {
 			}
 			for i := range c.Scalar {
 				c.Scalar[i] = rapid.Bool().Draw(rt, "scalar")
+			}
+			// now and then a job whose body is not a mapping: its id is defined all the same
+			if rapid.IntRange(0, 4).Draw(rt, "brokenbodies") == 0 {
+				c.Broken = make([]int, n)
+				for k := rapid.IntRange(1, 2).Draw(rt, "nbroken"); k > 0; k-- {
+					c.Broken[rapid.IntRange(0, n-1).Draw(rt, "brokenjob")] = rapid.IntRange(1, 3).Draw(rt, "brokenkind")
+				}
 			}
 			r.Eval()
 			y, _ := c.yaml()
